@@ -56,6 +56,34 @@ def anchors(prop):
   return _ANCHORS.get(prop, [])
 
 
+_EXT = None
+
+
+def ext_anchors(prop):
+  """Every flax/*.py file named anywhere in the property's anchors (files, and the `where` of its state / mechanism entries)."""
+  global _EXT
+  if _EXT is None:
+    import re
+    _EXT = {}
+    with open(os.path.join(VERIF, 'properties.jsonl'), encoding='utf-8') as f:
+      for line in f:
+        if line.strip():
+          d = json.loads(line)
+          _EXT[d['id']] = sorted(set(re.findall(r'flax/[A-Za-z0-9_/]+\.py', json.dumps(d['anchors']))))
+  return _EXT.get(prop, [])
+
+
+def rule_files(prop):
+  """Anchor files plus every file the property's own rules consult on the reference tree (a property's rules may follow its
+  mechanism beyond the listed anchors, e.g. C14's first-match rule reads nnx/graph.py::_graph_pop)."""
+  out = set(anchors(prop))
+  ref = reference.load()
+  for rid, v in ref.items():
+    if rid.startswith(prop + '.') and isinstance(v, dict) and not rid.endswith('.R90') and not rid.endswith('.R91'):
+      out |= {k.split('|')[1] for k in v.get('units', {})}
+  return sorted(out)
+
+
 def named_params(fn):
   a = fn.args
   return [x.arg for x in a.posonlyargs + a.args + a.kwonlyargs if x.arg not in ('self', 'cls') and not x.arg.startswith('_')]
@@ -206,7 +234,7 @@ def g3_transposed_arguments(R, repo, rels):
 
 
 def run(R, repo, prop):
-  rels = anchors(prop)
+  rels = rule_files(prop)
   R.require(bool(rels), 'no anchor files for %s' % prop)
   for rel in rels:
     R.require(rel in repo._paths, 'anchor file %s is missing' % rel)
@@ -220,7 +248,7 @@ def ensure(prop, registry, RuleSpec):
   specs = registry.setdefault(prop, [])
   if any(s.id == rid for s in specs):
     return
-  n = len(anchors(prop))
+  n = len(anchors(prop))  # floor: at least the anchor files
 
   def fn(R, repo, _prop=prop):
     run(R, repo, _prop)
